@@ -197,6 +197,16 @@ var Layouts = []Layout{
 	{Name: "raw-go-call-child", Pre: "\t<p>{{", Post: "}}</p>", Toks: []string{`_ =`, `up(`, `s`, `)`}},
 	{Name: "raw-go-if-child", Pre: "\t<p>{{", Post: "}}</p>", Toks: []string{`if b {`, `_ = s`, `}`}},
 	{Name: "raw-go-var-child", Pre: "\t<p>{{", Post: "}}{ v }</p>", Toks: []string{`var (`, `v = s`, `)`}},
+	// line comments inside expressions (the comment ends with its line)
+	{Name: "attr-line-comment", Pre: "\t<div title={", Post: "}>x</div>", Toks: []string{`s`, `,`, "// c\n"}},
+	{Name: "attr-line-comment-mid", Pre: "\t<div title={", Post: "}>x</div>", Toks: []string{`up(`, `s`, `,`, "// c\n", `"x"`, `)`}},
+	{Name: "class-line-comment", Pre: "\t<div class={", Post: "}>x</div>", Toks: []string{`"a"`, `,`, "// c\n", `"b"`}},
+	{Name: "call-line-comment", Pre: "\t@c2(", Post: ")", Toks: []string{`s`, `,`, "// c\n", `b`}},
+	{Name: "text-line-comment", Pre: "\t<p>{", Post: "}</p>", Toks: []string{`s`, "// c\n"}},
+	{Name: "text-line-comment-mid", Pre: "\t<p>{", Post: "}</p>", Toks: []string{`up(`, `s`, `,`, "// c\n", `)`}},
+	{Name: "if-line-comment", Pre: "\tif b {", Post: "\n\t}", Toks: []string{"// c\n", `yes`}},
+	{Name: "raw-go-line-comment", Pre: "\t{{", Post: "}}", Toks: []string{`_ = s`, "// c\n"}},
+	{Name: "legacy-line-comment", Pre: "\t{!", Post: "}", Toks: []string{`c()`, "// c\n"}},
 	{Name: "raw-go", Pre: "\t{{", Post: "}}\n\t{ v }", Toks: []string{`v`, `:=`, `s`}},
 	{Name: "raw-go-two", Pre: "\t{{", Post: "}}\n\t{ v }", Toks: []string{`v`, `:=`, `up(`, `s`, `)`, `;`, `_ = v`}},
 	{Name: "if", Pre: "\tif ", Post: "{\n\t\tyes\n\t}", Toks: []string{`b`, `&&`, `len(xs) > 0`}},
